@@ -242,6 +242,9 @@ package protocol
 //@   allocates
 //@   replay-import net/url
 //@   replay-go al := []byte("ab=&+%41"); var rec func(x []byte, d int); rec = func(x []byte, d int) { if want, err := url.ParseQuery(string(x)); err == nil { var a Args; a.ParseBytes(x); n := 0; for k, vs := range want { got := a.PeekAll(k); if len(got) != len(vs) { fmt.Printf("VCGO-VIOLATED query %q: key %q has %d value(s) in Args.ParseBytes and %d in net/url\n", x, k, len(got), len(vs)); panic("stop") }; for i := range vs { if string(got[i]) != vs[i] { fmt.Printf("VCGO-VIOLATED query %q: key %q value %d is %q in Args.ParseBytes and %q in net/url\n", x, k, i, got[i], vs[i]); panic("stop") } }; n += len(vs) }; if a.Len() != n && !(len(want[""]) > 0) { fmt.Printf("VCGO-VIOLATED query %q: %d arguments in Args.ParseBytes, %d in net/url\n", x, a.Len(), n); panic("stop") } }; if d == 0 { return }; for _, c := range al { rec(append(append([]byte{}, x...), c), d-1) } }; rec(nil, 5)
+// (C17: a key written without '=' is stored with an EMPTY value - the slot may be a recycled one still holding the
+// value of an earlier parse.)
+//@   ensures @C17 r && kv.noValue ==> len(kv.value) == 0
 //@   assert @C17 before decodeArgAppend#0: s.b[i] == '=' && argFree(s.b, 0, i) && sameSlice(arg1, s.b[:i])
 //@   assert @C17 before decodeArgAppend#1: s.b[i] == '&' && argFree(s.b, 0, i) && sameSlice(arg1, s.b[:i])
 //@   assert @C17 before decodeArgAppend#2: s.b[i] == '&' && 1 <= k && k <= i && s.b[k-1] == '=' && argFree(s.b, 0, k - 1) && ampFree(s.b, k - 1, i) && sameSlice(arg1, s.b[k:i])
